@@ -76,6 +76,7 @@ def run(tier, seed):
         for i in range(min(200, n3 - off)):
             p = intergen.program(ck.rng, 200000 + off + i)
             p["runs"] = [c09.td_config(ck.rng, d) for d in intersound.DOMS]
+            intergen.bound_contexts(ck.rng, p)
             ps.append(p)
         viols, merged, _ = intersound.explore(ck, "td%d" % off, ps)
         count(merged)
